@@ -371,10 +371,77 @@ def wrapper_sig(fx, t):
     return None
 
 
+def _split_wrapper(ctx, fx, co, sig):
+    """a wrapper written as a synchronous function that decides once, when it is called, and returns one of two futures
+    (`match timeout { Some(t) => Either::Left(async move { select!{..} }), None => Either::Right(fut.map(Ok)) }`): the async
+    block is the guarded variant. Returns (capture index of the handler future, capture index of the limit) when the
+    function's own part conforms — the guarded future is built on the Some(t) edge only, from the handler future and that t;
+    on the None edge the handler future is handed back adapted, with no timer — else None."""
+    parent = fx.fn(co.get("parent") or "")
+    if parent is None or parent.get("is_async") or parent["kind"] not in ("fn", "assoc_fn"):
+        return None
+    pb = ctx.body(fx, parent)
+    lits = [(bi, si, st) for bi, si, st in agg_sites(pb, ak="coroutine") if st["r"].get("def") == co["def"]]
+    if len(lits) != 1:
+        return None
+    ops = lits[0][2]["r"]["ops"]
+    fut_up = lim_up = None
+    for i, o in enumerate(ops):
+        os_ = pb.origins(o) if o.get("k") in ("move", "copy") else set()
+        if os_ and all(x.kind == "arg" and x.site == sig[0] + 1 and not x.proj for x in os_):
+            fut_up = i
+        if os_ and all(x.kind == "arg" and x.site == sig[1] + 1 and any(str(e).startswith("d1") for e in x.proj) for x in os_):
+            lim_up = i
+    if fut_up is None or lim_up is None or sig[2] != "option":
+        return None
+    A = nfa.Alphabet(calls=[("delay", lambda t: (t.get("callee") or "").startswith("futures_timer::")), ("adapt", lambda t: (t.get("callee") or "").endswith("FutureExt::map"))],
+                     adts={"core::option::Option": "Option"}, type_tags=[("Option<core::time::Duration>", "timeout")])
+    A.stmt_fn = lambda body_, bi_, si_, st_: "stmt:guarded" if (st_["r"]["k"] == "agg" and st_["r"].get("ak") == "coroutine" and st_["r"].get("def") == co["def"]) else None
+
+    class Split(nfa.Spec):
+        init = ("s0",)
+
+        def step(self, st, label):
+            ev = label.split("@")[0]
+            src = label.split("@")[1] if "@" in label else ""
+            if ev == "sw:Option::Some" and src == "timeout":
+                return ("some",)
+            if ev == "sw:Option::None" and src == "timeout":
+                return ("none",)
+            if ev == "stmt:guarded" and st[0] != "some":
+                return nfa.Err("R11.2: the timer-guarded future is built although no timeout is configured (phase %s)" % st[0])
+            if ev == "stmt:guarded":
+                return ("guarded",)
+            if ev == "call:delay":
+                return nfa.Err("R11.2: a timer is armed outside the guarded future")
+            if ev == "call:adapt":
+                return ("plain",) if st[0] == "none" else st
+            if ev == "ret" and st[0] not in ("guarded", "plain"):
+                return nfa.Err("R11.2: the wrapper returns in phase %s (neither the guarded nor the plain future)" % st[0])
+            return st
+    n = nfa.build(pb, A)
+    viols, ps = nfa.check(n, Split())
+    ctx.count_nfa(n.stats(), ps)
+    for v in viols:
+        ctx.viol("R11.2", "wrapper-protocol:decision", v["msg"], fn=parent["def"], site=parent["loc"], trace=v["trace"])
+    # the plain variant is the handler future itself (adapted to the common result type)
+    for _bi, t_ in pb.normal_calls():
+        if (t_.get("callee") or "").endswith("FutureExt::map"):
+            ctx.require(all(r.kind == "arg" and r.site == sig[0] + 1 for r in roots(pb, t_["args"][0])), "R11.2", "plain-variant-is-the-handler-future", "without a timeout the wrapper must hand back the handler future it was given", fn=parent["def"], site=t_["l"])
+    if viols:
+        return None
+    return fut_up, lim_up
+
+
 def check_wrapper(ctx, fx, co, sig=(0, 1, "option", -1)):
     b = ctx.body(fx, co)
     inst = co["def"]
     fut_up, lim_up, lim_kind, t_field_ = sig
+    pre_limited = False
+    split = _split_wrapper(ctx, fx, co, sig)
+    if split is not None:
+        fut_up, lim_up = split
+        pre_limited = True   # this future only exists on the Some(t) edge; its capture lim_up is that t
     # arms: nested closures of the select
     arms = {}
     for g in fx.descendants(co["def"]):
@@ -403,7 +470,10 @@ def check_wrapper(ctx, fx, co, sig=(0, 1, "option", -1)):
     A.adt_fn = lambda adt: "Sel" if adt.endswith("::__PrivResult") else None
     A.upvar_futs = {fut_up: "handler"}  # the handler future given to the wrapper, awaited directly or through map / fuse
     n = nfa.build(b, A)
-    viols, ps = nfa.check(n, WrapperSpec(delay_arm[0], fut_arm[0]))
+    wspec = WrapperSpec(delay_arm[0], fut_arm[0])
+    if pre_limited:
+        wspec.init = ("limited",)
+    viols, ps = nfa.check(n, wspec)
     ctx.count_nfa(n.stats(), ps)
     for v in viols:
         ctx.viol("R11.2", "wrapper-protocol", v["msg"], fn=inst, site=co["loc"], trace=v["trace"])
@@ -413,7 +483,7 @@ def check_wrapper(ctx, fx, co, sig=(0, 1, "option", -1)):
         c = t.get("callee") or ""
         if c.startswith("futures_timer::") and c.endswith("::new"):
             rs = b.origins(t["args"][0])
-            ok = all(o.kind == "upvar" and o.site == lim_up and any(str(e).startswith("d1:Some") or str(e).startswith("d1") for e in o.proj)
+            ok = all(o.kind == "upvar" and o.site == lim_up and (pre_limited or any(str(e).startswith("d1:Some") or str(e).startswith("d1") for e in o.proj))
                      and (lim_kind == "option" or [e for e in o.proj if e != "*"][:1] == ["f%d" % t_field_]) for o in rs) and rs
             ctx.require(ok, "R11.2", "delay-gets-configured-limit", "Delay::new must receive exactly the configured timeout: %s" % sorted(map(str, rs)), fn=inst, site=t["l"])
         if c.endswith("FutureExt::map"):
